@@ -1425,6 +1425,10 @@ private:
 
     while (QUILL_UNLIKELY(found_invalid_and_empty_thread_context != std::end(_active_thread_contexts_cache)))
     {
+      // The thread is gone and its context is about to be removed together with its failure
+      // counter: report what is pending first, otherwise dropped messages go unreported
+      _check_failure_counter(_options.error_notifier);
+
       // if we found anything then remove it - Here if we have more than one to remove we will
       // try to acquire the lock multiple times, but it should be fine as it is unlikely to have
       // that many to remove
